@@ -14,7 +14,7 @@ ID, var, src, needs = sys.argv[1:5]
 extra = sys.argv[5:]
 dst = "/verif/seeded/%s-%s" % (ID, var)
 os.makedirs(dst, exist_ok=True)
-sfx = "" if var[0] in "HRSTUVWX" else var          # second-round ("hard") seeds come as patch.diff / demo.py
+sfx = "" if var[0] in "HRSTUVWXY" else var          # second-round ("hard") seeds come as patch.diff / demo.py
 shutil.copy(os.path.join(src, "patch%s.diff" % sfx), os.path.join(dst, "patch.diff"))
 shutil.copy(os.path.join(src, "demo%s.py" % sfx), os.path.join(dst, "demo.py"))
 notes = os.path.join(src, "notes.md")
